@@ -40,7 +40,7 @@ def run(ctx):
     ctx.audit()
     ctx.check_theorems("EmbossV.View.Properties_C04", "View/Properties_C04.v", expect_min=4)
 
-    n_mod = 120 if ctx.thorough() else 20
+    n_mod = 120 if ctx.thorough() else 12
     n_buf = 40 if ctx.thorough() else 24
     jobs, infos = [], []
     flags = ["-std=c++14", "-O0", "-gline-tables-only", "-fsanitize=address,undefined", "-fno-sanitize-recover=all", "-fno-omit-frame-pointer"]
